@@ -359,6 +359,10 @@ MUTANTS = [
     dict(file=EN, func="homogeneous_poisson_exp_interval", old="            + refrac\n", new="", contracts=["homogeneous_poisson_exp_interval[intervals]"]),
     dict(file=EN, func="homogenous_poisson_bernoulli_approx", old="res.clamp_max_(1.0)", new="res.clamp_min_(1.0)", contracts=["homogenous_poisson_bernoulli_approx"]),
     dict(file=EN, func="homogenous_poisson_bernoulli_approx", old='"... -> t ...", t=int(steps)', new='"... -> t ...", t=int(steps) + 1', contracts=["homogenous_poisson_bernoulli_approx"]),
+    dict(file=EN, func="homogeneous_poisson_exp_interval_online", old="            spikes = intervals < 1", new="            spikes = torch.lt(intervals, 1)", contracts=["homogeneous_poisson_exp_interval_online[any number of steps]", "homogeneous_poisson_exp_interval_online[steps<=3]"], expect="survives", name="control: the comparison written as torch.lt (a new tensor per step)"),
+    dict(file=EN, func="homogeneous_poisson_exp_interval_online", contracts=["homogeneous_poisson_exp_interval_online[any number of steps]"], name="seed C19h: one spike buffer reused for every yielded slice",
+         edits=[dict(func="homogeneous_poisson_exp_interval_online", old="        for _ in range(steps):", new="        spikes = torch.zeros_like(intervals, dtype=torch.bool)\n        for _ in range(steps):"),
+                dict(func="homogeneous_poisson_exp_interval_online", old="            spikes = intervals < 1", new="            torch.lt(intervals, 1, out=spikes)")]),
 ]
 
 
